@@ -326,7 +326,7 @@ value_t expr_t::op_t::calc(scope_t& scope, ptr_op_t * locus, const int depth)
     break;
 
   case O_MATCH:
-    result = (right()->calc(scope, locus, depth + 1).as_mask()
+    result = (right()->calc(scope, locus, depth + 1).to_mask()
               .match(left()->calc(scope, locus, depth + 1).to_string()));
     break;
 
